@@ -7,7 +7,11 @@ def ix_for(crates):
     k = tuple(crates)
     if k not in _ix: _ix[k] = driver.build_index(crates)[0]
     return _ix[k]
-def r(prop, only=None, tier='quick', trace=False, maxjobs=3, quiet=False, stop=True):
+def r(*a, **kw):
+    from mirsym.bigframe import run_in_big_frame
+    return run_in_big_frame(lambda: _r(*a, **kw))
+
+def _r(prop, only=None, tier='quick', trace=False, maxjobs=3, quiet=False, stop=True):
     tot = [0]
     os.system('clear')
     import mirsym.mir, mirsym.engine, mirsym.models, mirsym.models2, mirsym.models3, mirsym.models4, mirsym.harness
